@@ -26,6 +26,7 @@ import Driver.Suites.Rm
 import Driver.Suites.Wscap
 import Driver.Suites.Bucket
 import Driver.Suites.Sem
+import Driver.Suites.WsRange
 import Driver.Suites.Codec
 import Driver.Suites.Reader
 import Driver.Suites.Geometry
@@ -74,6 +75,7 @@ def registry : List Suite := [
   Suites.Wscap.suite,
   Suites.Bucket.suite,
   Suites.Sem.suite,
+  Suites.WsRange.suite,
   Suites.Codec.suite,
   Suites.Reader.suite,
   Suites.Geometry.suite,
